@@ -97,6 +97,11 @@ CHECKS['C19'] = dict(
     text='Generated sessions (definitions, calls into any earlier line, functions with property/invoke sites over earlier objects, classes extended later, closures over session variables, entries that fail to compile or raise, each followed by a probe of earlier definitions) are fed to Vm::repl through stdin; the output with prompts stripped must equal the reference model and the output of the good lines run as one file; debug, release and debug under a collection schedule with address reuse.',
     note=_MODEL_NOTE + ' Every entry is one physical line (the prompt reads lines).', ref='DESIGN.md §2 C19')
 
+CHECKS['C15'] = dict(
+    technique='seeded mutational fuzzing of the real front end (token/byte mutations, truncations, token soup) + boundary inputs, phase-attributed through the compile-dump hook; libFuzzer+ASan in the thorough tier when available',
+    text='Tens of thousands of seeded mutants of all repo fixtures and generated programs plus boundary inputs (nesting 256 deep for every recursive construct, 254-300 locals/parameters/arguments/captures, 65535-70000 constants, megabyte tokens, 66000 lines, oversized jumps) are fed to Vm::run on debug (compiler debug assertions count as panics) and release. A crash, abort, signal or timeout before the compile hook reports a finished module is a front-end violation; a compile-error status must come with a diagnostic and empty stdout. REPL survival after bad lines is covered by C19.',
+    note='Inputs that are not valid UTF-8 never reach the front end (the runtime refuses to read them); nesting beyond 256 is outside the stated bound. Known finding D26 (u16 line numbers) is keyed on its boundary input.', ref='DESIGN.md §2 C15')
+
 PENDING = {}
 
 
